@@ -39,17 +39,34 @@ def machine():
     reg.arr = arr
     vecnames = [n for n in G.mod.funcs if n.startswith('@_ZNKSt6vectorI7MatcherIN6Teakra11InterpreterEE') and n.endswith('ixEm')]
 
-    def vecidx(e, st_, a):
-        idx = a[1]
-        if not is_c(idx):
-            idx2 = z3.simplify(bv(idx, 64))
-            if not z3.is_bv_value(idx2):
-                raise Abort('decoders[symbolic opcode]')
-            idx = idx2.as_long()
+    def row_of(idx):
         m = [r for r in rows if (idx & r['mask']) == r['expected'] and all((idx & mm) != uu for mm, uu in r['rejectors'])]
         if len(m) != 1:
             raise Abort('opcode %#06x decodes to %d rows' % (idx, len(m)))
-        return st_, m[0]['ptr']
+        return m[0]['ptr']
+
+    def vecidx(e, st_, a):
+        idx = a[1]
+        if is_c(idx):
+            return st_, row_of(idx)
+        idx2 = z3.simplify(bv(idx, 64))
+        if z3.is_bv_value(idx2):
+            return st_, row_of(idx2.as_long())
+        # the fetched word is a term (e.g. fetched through a pc popped from the symbolic stack): enumerate its feasible values
+        vals = []
+        e.solver.set('timeout', 20000)
+        while len(vals) <= 4:
+            r_ = e.solver.check(*(st_.pc + [idx2 != v_ for v_ in vals]))
+            if r_ == z3.unsat:
+                break
+            if r_ != z3.sat:
+                raise Abort('decoders[symbolic opcode]: solver gave no answer')
+            vals.append(e.solver.model().eval(idx2, model_completion=True).as_long())
+        if not vals or len(vals) > 4:
+            raise Abort('decoders[symbolic opcode]: %d feasible values' % len(vals))
+        if len(vals) == 1:
+            return st_, row_of(vals[0])
+        return st_, Ptr(None, None, tuple((idx2 == v_, row_of(v_)) for v_ in vals))
     for n in vecnames:
         ex.intercepts[n] = vecidx
     _S['m'] = (G, ex, st, ctx, rows)
@@ -173,6 +190,17 @@ def job_case(case, tier, seed):
             ck.inconclusive.append('case %r slices %r: %s' % (case, comp, str(x)[:150]))
             continue
         ck.nstates += 1
+        # cycles (1-based, within the n-cycle budget) at which the timer raises its interrupt, from the concrete cells
+        fires = []
+        c_, s_c, md = case['counter'], case['start'], case['mode']
+        f_ = c_ if 1 <= c_ <= case['nmax'] else None
+        if c_ == 0 and md == 1 and 1 <= s_c <= case['nmax']:
+            f_ = 1 + s_c
+        while f_ is not None and f_ <= n:
+            fires.append(f_)
+            f_ = f_ + 1 + s_c if (md == 1 and 1 <= s_c <= case['nmax']) else None
+        starts = [0] + [sum(comp[:k]) for k in range(1, len(comp))]
+        window = int(any((f - b) in (1, 2) for f in fires for b in starts))
         # two obligations per slicing: the peripheral side (timers, ICU request word - time must pass identically whatever
         # the CPU does) and the CPU side (registers, latches, stack). The listed idle-entry latency finding concerns the CPU
         # side only, so a peripheral deviation in the same input region is still reported.
@@ -198,7 +226,7 @@ def job_case(case, tier, seed):
                 ck.identical(name, sample='Run(%d) vs Run slices %s, %s: %s are identical terms' % (n, comp, label, 'every timer field and the ICU request word' if part == 'peripherals' else 'every register, pending bit, latch and the stack') if case['counter'] == 2 and case['mode'] == 1 else None)
             else:
                 v2 = dict(vars_)
-                v2.update({'counter_cell': case['counter'], 'start_cell': case['start'], 'mode': case['mode'], 'slices': len(comp)})
+                v2.update({'counter_cell': case['counter'], 'start_cell': case['start'], 'mode': case['mode'], 'slices': len(comp), 'latency_window': window})
                 ck.prove(name, A, z3.And(*goals), vars=v2, replay=replayer(case, comp, part), replay_known=(case['counter'] == 1 and case['mode'] == 0 and comp == [n - 1, 1]),
                          sample='Run(%d) vs slices %s, %s [differing: %s]' % (n, comp, label, ','.join(names[:5])))
     ck.ninstr += ex.ninstr
